@@ -246,7 +246,7 @@ func plan(op *wops.Op, cfg planCfg) []seg {
 	isLaneOp := op.Imm == wops.ImmLane
 	// rotations: lane j of tuple i holds element (i*L + (j+rot) mod L) so that ops
 	// reading only some lanes still see every value.
-	rots := func(L int) []int {
+	rots := func(L int, heavy bool) []int {
 		switch {
 		case isLaneOp && !cfg.quick:
 			r := make([]int, L)
@@ -257,7 +257,9 @@ func plan(op *wops.Op, cfg planCfg) []seg {
 		case isLaneOp:
 			a := int(uint64(cfg.seed) % uint64(L))
 			return []int{a, (a + L/2) % L, (a + 1) % L}
-		case halfReading(op.Name):
+		case halfReading(op.Name) || !heavy:
+			// both halves of the vector see every element (lowerings that split a
+			// vector into halves, instructions that read one half)
 			return []int{0, L / 2}
 		}
 		return []int{0}
@@ -268,7 +270,7 @@ func plan(op *wops.Op, cfg planCfg) []seg {
 	case ar == 1 && (p0 == wops.I8x16 || p0 == wops.I16x8):
 		w, L := laneGeom(p0)
 		per := (1 << uint(w)) / L
-		rs := rots(L)
+		rs := rots(L, false)
 		segs = append(segs, seg{kind: "exhaustive-unary", n: per * len(rs), kstride: 1,
 			exhaustive: sprintf("all 2^%d lane values (x%d lane rotations)", w, len(rs)),
 			gen: func(i int) tuple {
@@ -312,7 +314,7 @@ func plan(op *wops.Op, cfg planCfg) []seg {
 				}})
 		}
 	case ar == 2 && allSame(wops.I8x16), ar == 2 && op.Class == "vec.bitwise", op.Name == "i8x16.shuffle":
-		rs := rots(16)
+		rs := rots(16, false)
 		segs = append(segs, seg{kind: "exhaustive-binary-8", n: 4096 * len(rs), kstride: 1,
 			exhaustive: sprintf("all 256x256 lane pairs (x%d lane rotations)", len(rs)),
 			gen: func(i int) tuple {
@@ -327,7 +329,7 @@ func plan(op *wops.Op, cfg planCfg) []seg {
 			}})
 	case ar == 2 && allSame(wops.I16x8):
 		B := boundaryWindow(cfg)
-		rs := rots(8)
+		rs := rots(8, true)
 		per := 8192
 		n := per * len(B) * 2 * len(rs)
 		segs = append(segs, seg{kind: "16-bit-all-x-boundary", n: n, kstride: kstrideFor(cfg, n),
@@ -416,7 +418,7 @@ func plan(op *wops.Op, cfg planCfg) []seg {
 		blocks := (nComb + combosPerTuple - 1) / combosPerTuple
 		rs := []int{0}
 		if L > 1 {
-			rs = rots(L)
+			rs = rots(L, false)
 			if len(rs) > 2 {
 				rs = rs[:2]
 			}
